@@ -56,6 +56,7 @@ def main():
     rc, out = sh("git status --short", REPO)
     if out.strip():
         print("repo working tree is not clean"); sys.exit(2)
+    sh("rm -rf /verif/work/evidence_keep3 && cp -r /verif/evidence /verif/work/evidence_keep3")
     for name, path, old, new, checks in M:
         if only and name not in only and not any(name.startswith(o) for o in only):
             continue
@@ -84,5 +85,6 @@ def main():
         finally:
             sh("git checkout -- .", REPO)
         json.dump(results, open(res_path, "w"), indent=1)
+    sh("rm -rf /verif/evidence && mv /verif/work/evidence_keep3 /verif/evidence")
 
 main()
